@@ -73,7 +73,10 @@ type L1 struct {
 // SendHook lets a test run code while a bank transfer is executing, as a token hook or a
 // contract on the receiving side would. Current is the message being delivered.
 type SendHook struct {
-	Fn      func(ctx sdk.Context, from, to sdk.AccAddress, amt sdk.Coins)
+	Fn func(ctx sdk.Context, from, to sdk.AccAddress, amt sdk.Coins)
+	// Reject, when set, decides whether the bank refuses the transfer (a restriction of the token,
+	// a frozen account, ...): a non-nil error is returned by the bank keeper.
+	Reject  func(ctx sdk.Context, from, to sdk.AccAddress, amt sdk.Coins) error
 	Current sdk.Msg
 	active  bool
 }
@@ -194,6 +197,11 @@ func NewL1(opt L1Options) *L1 {
 			sendHook.active = true // the hook's own transfers do not recurse into the hook
 			defer func() { sendHook.active = false }()
 			sendHook.Fn(sdk.UnwrapSDKContext(c), from, to, amt)
+		}
+		if sendHook.Reject != nil {
+			if err := sendHook.Reject(sdk.UnwrapSDKContext(c), from, to, amt); err != nil {
+				return to, err
+			}
 		}
 		return to, nil
 	})
